@@ -11,8 +11,8 @@ EXPLANATION = ('expose: aerial image (2 pixels, >= 0, unbounded above), exposure
                'bit depth is concrete and ALL of 1..32 are enumerated; clipping forks paths and the unsigned cast has C semantics with '
                'floor/trunc atoms, so 0 <= DN <= 2^bits-1 is decided for every signal level including saturation. bindown/tile and the '
                'Bayer routines run on arrays with independent symbolic entries.')
-BOUNDS = {'quick': 'expose: 1-pixel images for every bit depth 1..32 (exposure time/gain from an enumerated rational set), 2-pixel images for monotonicity at bits 1, 8, 13, 32, frames 1 and 2 (range obligation with arbitrary noise for bits in {1,8,12,16,32}); bindown/tile arrays up to 4x4x2; mosaics up to 4x6',
-          'thorough': 'expose: arbitrary-noise range obligation for every bit depth; bindown/tile up to 6x6x2; mosaics up to 6x6'}
+BOUNDS = {'quick': 'expose: 1-pixel images for every bit depth 1..32 (exposure time/gain from an enumerated rational set), 2-pixel images for monotonicity at bits 1, 8, 13, 32, frames 1 and 2 (range obligation with arbitrary noise for bits in {1,8,12,16,32}); bindown/tile arrays up to 4x4x2; mosaics up to 4x6; integer frames (uint8, uint16): binning and tiling of 2x4 frames with the dtype model',
+          'thorough': 'expose: arbitrary-noise range obligation for every bit depth; bindown/tile up to 6x6x2; mosaics up to 6x6; int16 and uint32 frames'}
 OUTSIDE = 'lut mapping (np.take on integer data); statistics of the noise (only its support)'
 NDERIVED = 60
 MAX_PATHS = 160
